@@ -1464,6 +1464,11 @@ impl<'c> Gen<'c> {
                     Place { var: w.clone(), fields: vec![] },
                     Box::new(Expr::Bin(BinOp::Add, Box::new(Expr::Var(w)), Box::new(self.small_i32(1)))),
                 )));
+                if !self.in_const && self.c.chance(35) {
+                    // a body that always leaves the function: the loop itself still may run zero times
+                    let r = self.return_expr(d.min(2));
+                    body.stmts.push(Stmt::Expr(r));
+                }
                 out.push(Stmt::Expr(Expr::While(Box::new(cond), body)));
             }
             11 => {
@@ -1514,6 +1519,10 @@ impl<'c> Gen<'c> {
                             None,
                         )));
                     }
+                }
+                if !self.in_const && self.c.chance(35) {
+                    let r = self.return_expr(d.min(2));
+                    body.stmts.push(Stmt::Expr(r));
                 }
                 self.loop_depth -= 1;
                 self.scopes.pop();
